@@ -617,7 +617,7 @@ def replay_mode(prop, path):
     if "avx512" in flavour and not B.cpu_has_avx512():
         harness_error("replay needs AVX-512 hardware")
     bins, _ = build_all([flavour])
-    if flavour.startswith("plain") and plan.get("profile") != "C08X":
+    if flavour.startswith("plain") and plan.get("profile") not in ("C08X", "C17X"):
         REPLAY_PREFIX[bins[flavour]] = ["valgrind", "-q", "--error-exitcode=77", "--exit-on-first-error=yes", "--leak-check=no"]
     rep = run_replay_file(bins[flavour], path)
     fs = findings_of(rep, plan, bins[flavour])
@@ -708,6 +708,24 @@ def main():
             perms = sum(r["faults"].get("bulk_permutations", 0) for r in bs.results.values())
             log("bulk  %-11s runs=%d wall=%.1fs (every tree builder on one large input, trees compared; %.2e permutations) crashes=%d" % (f, len(bs.results), bs.wall, perms, len(bs.crashes)))
             sweeps.append(bs)
+
+    # ---- bulk copies in the uninstrumented (as shipped -O3) build: thorough C17.  Sizes >= 2^20 elements (beyond what the
+    #      access-level simulation affords), caller memory from mmap (private / shared mapping), occasionally one member's
+    #      share >= 4 GiB.
+    if prop == "C17" and tier == "thorough":
+        nb = int(os.environ.get("VERIF_BULK_RUNS", 1200))
+        try:
+            bbin, binfo = B.build("plain-avx2")
+        except RuntimeError as e:
+            harness_error("build of plain-avx2 failed: %s" % (e.args,))
+        infos["plain-avx2"] = binfo
+        bs = Sweep(bbin, "plain-avx2", "C17X", seed * 1000003 + 57001, nb, NPROC, dict(lim), time.time() + 500, samples=False)
+        bs.bulk = True
+        bs.bulk_label = "/bulk-copy"
+        bs.run()
+        elems = sum(r["faults"].get("bulk_copy_elements", 0) for r in bs.results.values())
+        log("bulk  %-11s runs=%d wall=%.1fs (parcpy / parSetZero over mmap'ed caller memory, %.2e elements) crashes=%d" % ("plain-avx2", len(bs.results), bs.wall, elems, len(bs.crashes)))
+        sweeps.append(bs)
 
     # ---- valgrind memcheck over the uninstrumented (as shipped -O3) build: thorough tier of C18 ----------
     vg_sweep = None
@@ -914,7 +932,7 @@ def write_evidence(prop, tier, seed, sweeps, infos, gate_checked, violations, kn
     for sw in sweeps:
         pf = dict(runs=len(sw.results), wall_s=round(sw.wall, 2), crashes=len(sw.crashes), sanitizer_reports=len(sw.sanitizer), no_progress=len(sw.fatals), worker_restarts=sw.restarts, stopped_at_cap=sw.timed_out,
                   runs_per_hour=int(len(sw.results) / max(sw.wall, 1e-3) * 3600))
-        per_flavour[sw.flavour + ("/cold-start" if sw.cold else "") + ("/valgrind" if sw.prefix else "") + ("/bulk-cross-backend" if sw.bulk else "")] = pf
+        per_flavour[sw.flavour + ("/cold-start" if sw.cold else "") + ("/valgrind" if sw.prefix else "") + (getattr(sw, "bulk_label", "/bulk-cross-backend") if sw.bulk else "")] = pf
         for i, r in sw.results.items():
             evals += 1
             shapes.add((sw.flavour, r["shape"]))
